@@ -22,9 +22,9 @@ package limiter
 //@ macro bypass() = (called(Config.Next) && last(Config.Next)) || last(Config.MaxFunc) == 0
 //@ macro ownKey(k) = k == last(Config.KeyGenerator)
 
-// the lock invariants on the entries (no negative counters, an empty entry has no hits, window ends fit the clock)
+// the lock invariants on the entries (no negative counters - sliding: neither current nor previous hits -, an empty entry has no hits, window ends fit the clock)
 //@ macro fixedWF(m) = forallS(k, (lsExp(m, k) == 0 ==> lsCurr(m, k) == 0) && lsCurr(m, k) >= 0 && 0 <= lsExp(m, k) && lsExp(m, k) < 8589934592)
-//@ macro slidingWF(m) = forallS(k, (lsExp(m, k) == 0 ==> lsCurr(m, k) == 0 && lsPrev(m, k) == 0) && lsCurr(m, k) >= 0 && 0 <= lsExp(m, k) && lsExp(m, k) < 8589934592)
+//@ macro slidingWF(m) = forallS(k, (lsExp(m, k) == 0 ==> lsCurr(m, k) == 0 && lsPrev(m, k) == 0) && lsCurr(m, k) >= 0 && lsPrev(m, k) >= 0 && 0 <= lsExp(m, k) && lsExp(m, k) < 8589934592)
 
 // ---- fixed window ---------------------------------------------------------------------------------
 //@ func (FixedWindow).New$1
@@ -48,9 +48,22 @@ package limiter
 //   (the same step, written with the step functions of the counting lemmas in zz_contracts_lemma_verif.go)
 //@   atcall (*manager).set: budget-test-is-the-lemma-admission: !called(@fiber.Ctx.Next) ==> (remaining >= 0 <==> fwAdmitted(lsCurr(manager, key), lsExp(manager, key), ts, maxRequests)) && maxRequests == last(Config.MaxFunc)
 //@   atcall (*manager).set: window-step-is-the-lemma-step: !called(@fiber.Ctx.Next) ==> it.currHits == fwCurr(lsCurr(manager, key), lsExp(manager, key), ts) && it.exp == fwExp(lsExp(manager, key), ts, expiration)
-//@   atcall (*manager).set: skip-decrements-own-hit: called(@fiber.Ctx.Next) ==> it.currHits == ite(lsCurr(manager, key) > 0, lsCurr(manager, key) - 1, 0) && it.exp == lsExp(manager, key)
+//   the skip section (after c.Next): the window the request was counted in is identified by its end, ts + resetInSec
+//   (clause reset-is-time-to-the-end-of-the-counted-window; a roll-over moves the end forward: lemma
+//   fixed-window-end-identifies-the-window). The hit is taken back from that window's counter only.
+//@   atcall (*manager).set: reset-is-time-to-the-end-of-the-counted-window: !called(@fiber.Ctx.Next) ==> it.exp > ts && it.exp < 8589934592 && resetInSec == it.exp - ts
+//@   atcall (*manager).set: skip-takes-the-hit-back-in-its-own-window: called(@fiber.Ctx.Next) && lsExp(manager, key) == ts + resetInSec ==> it.currHits == ite(lsCurr(manager, key) > 0, lsCurr(manager, key) - 1, 0) && it.exp == lsExp(manager, key)
+//@   atcall (*manager).set: hit-taken-back-only-from-the-window-it-was-counted-in--nothing-after-a-roll-over: called(@fiber.Ctx.Next) && lsExp(manager, key) != ts + resetInSec ==> it.currHits == lsCurr(manager, key) && it.exp == lsExp(manager, key)
+//@   atcall (*manager).set: skip-step-is-the-lemma-step: called(@fiber.Ctx.Next) ==> it.currHits == fwUncount(lsCurr(manager, key), lsExp(manager, key), ts + resetInSec) && it.exp == lsExp(manager, key)
 //@   atcall (*manager).set: entry-lives-one-window: exp == cfg.Expiration
 //@   atcall (*manager).set: skip-only-for-configured-class: called(@fiber.Ctx.Next) ==> cfg.SkipSuccessfulRequests || cfg.SkipFailedRequests
+//   (answeredWith, skipClass: zz_contracts_skip_verif.go; stated where the skip section is entered, before the lock is
+//   taken: nothing has run since c.Next returned, so the response object is as the handler left it)
+//@   atcall @sync.(*RWMutex).Lock: skip-options-classify-a-request-by-the-status-it-is-answered-with--an-error-of-the-handler-counts-as-its-status-code-not-as-the-untouched-200: called(@fiber.Ctx.Next) ==> skipClass(cfg, answeredWith(c, last(@fiber.Ctx.Next), epochNow))
+//   ... and the other way round: a request of the configured class that reaches the rate-limit headers has been through
+//   the skip section, i.e. it has made its second write-back (setN: zz_contracts_store_verif.go)
+//@   atcall @fiber.Ctx.Set: a-request-of-the-configured-class-is-un-counted: key == "X-RateLimit-Limit" && skipClass(cfg, answeredWith(c, last(@fiber.Ctx.Next), epochNow)) ==> setN == old(setN) + 2
+//@   atcall @fiber.Ctx.Set: no-write-back-but-the-count-and-the-un-count: setN == old(setN) + 1 || setN == old(setN) + 2
 //@   atcall @fiber.Ctx.Next: admitted-within-budget: !held(mux) && (bypass() || lsCurr(manager, last(Config.KeyGenerator)) <= last(Config.MaxFunc))
 //@   atcall Config.LimitReached: rejected-only-when-exhausted: !held(mux) && lsCurr(manager, last(Config.KeyGenerator)) > last(Config.MaxFunc)
 //@   atcall @fiber.Ctx.Set: retry-after-is-time-to-reset: key == "Retry-After" ==> val == fmtUint(lsExp(manager, last(Config.KeyGenerator)) - ts, 10) && lsExp(manager, last(Config.KeyGenerator)) > ts
@@ -80,11 +93,25 @@ package limiter
 //@ ..      it.currHits == lsCurr(manager, key) + 1 && it.prevHits == lsPrev(manager, key) && it.exp == lsExp(manager, key)))
 //   (the same step, written with the step functions of the counting lemmas in zz_contracts_lemma_verif.go)
 //@   atcall (*manager).set: window-step-is-the-lemma-step: !called(@fiber.Ctx.Next) ==> it.currHits == swCurr(lsCurr(manager, key), lsExp(manager, key), ts) && it.prevHits == swPrev(lsPrev(manager, key), lsCurr(manager, key), lsExp(manager, key), ts) && it.exp == swExp(lsExp(manager, key), ts, expiration)
-//@   atcall (*manager).set: skip-decrements-own-hit: called(@fiber.Ctx.Next) ==> it.currHits == ite(lsCurr(manager, key) > 0, lsCurr(manager, key) - 1, 0) && it.exp == lsExp(manager, key) && it.prevHits == lsPrev(manager, key)
+//   the skip section (after c.Next): the window the request was counted in is identified by its end, ts + resetInSec
+//   (clause reset-is-time-to-the-end-of-the-counted-window). After exactly one roll-over without a gap the end is one
+//   window length later and the hit is among the previous hits; after a roll-over with a gap or a second roll-over the
+//   end is later still (lemmas sliding-*-roll-over*): the hit is taken back where it is now, or not at all.
+//@   atcall (*manager).set: reset-is-time-to-the-end-of-the-counted-window: !called(@fiber.Ctx.Next) ==> it.exp > ts && it.exp < 8589934592 && resetInSec == it.exp - ts
+//@   atcall (*manager).set: skip-takes-the-hit-back-in-its-own-window: called(@fiber.Ctx.Next) && lsExp(manager, key) == ts + resetInSec ==> it.currHits == ite(lsCurr(manager, key) > 0, lsCurr(manager, key) - 1, 0) && it.prevHits == lsPrev(manager, key) && it.exp == lsExp(manager, key)
+//@   atcall (*manager).set: hit-taken-back-only-from-the-window-it-was-counted-in--from-the-previous-hits-after-one-roll-over: called(@fiber.Ctx.Next) && lsExp(manager, key) == ts + resetInSec + expiration ==> it.prevHits == ite(lsPrev(manager, key) > 0, lsPrev(manager, key) - 1, 0) && it.currHits == lsCurr(manager, key) && it.exp == lsExp(manager, key)
+//@   atcall (*manager).set: hit-taken-back-only-from-the-window-it-was-counted-in--nothing-after-two-roll-overs: called(@fiber.Ctx.Next) && lsExp(manager, key) != ts + resetInSec && lsExp(manager, key) != ts + resetInSec + expiration ==> it.currHits == lsCurr(manager, key) && it.prevHits == lsPrev(manager, key) && it.exp == lsExp(manager, key)
+//@   atcall (*manager).set: skip-step-is-the-lemma-step: called(@fiber.Ctx.Next) ==> it.currHits == swUncountCurr(lsCurr(manager, key), lsExp(manager, key), ts + resetInSec) && it.prevHits == swUncountPrev(lsPrev(manager, key), lsExp(manager, key), ts + resetInSec, expiration) && it.exp == lsExp(manager, key)
 //@   atcall (*manager).set: entry-outlives-next-window: !called(@fiber.Ctx.Next) ==> exp == ((it.exp - ts) + expiration) * 1000000000
 //   the skip section writes the entry back as well: it must not shorten its life (the hits of this window are the
 //   previous hits of the next one); T = the most recent clock reading, it.exp - T = time to the window end
 //@   atcall (*manager).set: skip-keeps-the-entry-for-the-next-window: called(@fiber.Ctx.Next) ==> exp >= (ite(it.exp > last(@utils.Timestamp), it.exp - last(@utils.Timestamp), 0) + expiration) * 1000000000
+//@   atcall (*manager).set: skip-only-for-configured-class: called(@fiber.Ctx.Next) ==> cfg.SkipSuccessfulRequests || cfg.SkipFailedRequests
+//@   atcall @sync.(*RWMutex).Lock: skip-options-classify-a-request-by-the-status-it-is-answered-with--an-error-of-the-handler-counts-as-its-status-code-not-as-the-untouched-200: called(@fiber.Ctx.Next) ==> skipClass(cfg, answeredWith(c, last(@fiber.Ctx.Next), epochNow))
+//   ... and the other way round: a request of the configured class that reaches the rate-limit headers has been through
+//   the skip section, i.e. it has made its second write-back (setN: zz_contracts_store_verif.go)
+//@   atcall @fiber.Ctx.Set: a-request-of-the-configured-class-is-un-counted: key == "X-RateLimit-Limit" && skipClass(cfg, answeredWith(c, last(@fiber.Ctx.Next), epochNow)) ==> setN == old(setN) + 2
+//@   atcall @fiber.Ctx.Set: no-write-back-but-the-count-and-the-un-count: setN == old(setN) + 1 || setN == old(setN) + 2
 //@   atcall @fiber.Ctx.Next: admitted-within-rate: !held(mux) && (bypass() || rateOf(lsPrev(manager, last(Config.KeyGenerator)), lsCurr(manager, last(Config.KeyGenerator)), lsExp(manager, last(Config.KeyGenerator)) - ts, expiration) <= last(Config.MaxFunc))
 //@   atcall Config.LimitReached: rejected-only-when-exhausted: !held(mux) && rateOf(lsPrev(manager, last(Config.KeyGenerator)), lsCurr(manager, last(Config.KeyGenerator)), lsExp(manager, last(Config.KeyGenerator)) - ts, expiration) > last(Config.MaxFunc)
 //@   atcall @fiber.Ctx.Set: retry-after-is-time-to-reset: key == "Retry-After" ==> val == fmtUint(lsExp(manager, last(Config.KeyGenerator)) - ts, 10) && lsExp(manager, last(Config.KeyGenerator)) > ts
